@@ -21,6 +21,11 @@ var apiProps = map[string]bool{"C01": true, "C05": true, "C06": true, "C10": tru
 
 var apiAdded = false
 
+// plainSmallBlocks: the public-API scenarios save and load in (almost) every execution; the 4 MiB block buffers that
+// every SaveCache allocates (it only sizes buffers) are compiled as 4 KiB there - 16 MiB of garbage per execution
+// made a worker's heap balloon to gigabytes
+var plainSmallBlocks = Build{Kind: "plain", Consts: map[string]string{"persistence.go:BlockBufferSize": "4096"}}
+
 func registry() []*Check {
 	sort.Slice(allChecks, func(i, j int) bool { return allChecks[i].ID < allChecks[j].ID })
 	if !apiAdded {
@@ -29,8 +34,8 @@ func registry() []*Check {
 			if !apiProps[c.ID] {
 				continue
 			}
-			c.Quick = append(c.Quick, Scenario{Name: c.ID + "/api-wiring", Build: plain, Pkg: "root", Test: "TestVerif_API", Params: "prop=" + c.ID + ",depth=3", Shards: 4, BudgetS: 60})
-			c.Thorough = append(c.Thorough, Scenario{Name: c.ID + "/api-wiring", Build: plain, Pkg: "root", Test: "TestVerif_API", Params: "prop=" + c.ID + ",depth=5", Shards: 16, BudgetS: 600})
+			c.Quick = append(c.Quick, Scenario{Name: c.ID + "/api-wiring", Build: plainSmallBlocks, Pkg: "root", Test: "TestVerif_API", Params: "prop=" + c.ID + ",depth=3", Shards: 4, BudgetS: 60})
+			c.Thorough = append(c.Thorough, Scenario{Name: c.ID + "/api-wiring", Build: plainSmallBlocks, Pkg: "root", Test: "TestVerif_API", Params: "prop=" + c.ID + ",depth=5", Shards: 16, BudgetS: 600})
 			if c.ID != "C10" && c.ID != "C11" {
 				c.Quick = append(c.Quick, Scenario{Name: c.ID + "/api-pressure-m1", Build: plain, Pkg: "root", Test: "TestVerif_APIPressure", Params: "prop=" + c.ID + ",depth=5,max=1", Shards: 8, BudgetS: 60})
 				c.Quick = append(c.Quick, Scenario{Name: c.ID + "/api-pressure-ext", Build: plain, Pkg: "root", Test: "TestVerif_APIPressure", Params: "prop=" + c.ID + ",depth=3,max=1,ext=1", Shards: 4, BudgetS: 60})
